@@ -59,7 +59,7 @@ for _pid, _a, _what in (("C01", "a01", "outcome, stacks and output equal the ref
         ],
         "caps_by_harness": [("power", (600, 12)), ("^c01_t_exec_", (1500, 14)), ("^c01_t_(dispatch|loop|block)_", (1500, 14))],
         # exec harnesses with >= 2 programs need 4-8 GB each: at most 4 side by side
-        "weight_by_harness": [("^c01_t_exec_", 4), ("^c01_t_(dispatch|loop|block)_", 2), ("_swap_d[23]$", 2), ("^c01_exec_(if_else_e2|push_empty)", 2)],
+        "weight_by_harness": [("^c01_t_exec_", 6), ("^c01_t_(dispatch|loop|block)_", 4), ("_swap_d[23]$", 2), ("^c01_exec_(if_else_e2|push_empty)", 2)],
     }
 
 PROPS["C04"] = {
